@@ -27,9 +27,14 @@ package capnp
 //@   trusted
 //@   modifies nothing
 
+// Interface.Client: the capability index comes from the wire; it selects an entry of the message's
+// capability table when it is in range and yields nil otherwise (never an out-of-range index).
 //@ func Interface.Client -> r
-//@   trusted
+//@   props C01 C03 C08 C17
 //@   modifies nothing
+//@   ensures nomsg: implies(i.seg == nil || i.seg.msg == nil, r == nil)
+//@   ensures outofrange: implies(i.seg != nil && i.seg.msg != nil && M(i.cap) >= M(len(i.seg.msg.CapTable)), r == nil)
+//@   ensures entry: implies(i.seg != nil && i.seg.msg != nil && M(i.cap) < M(len(i.seg.msg.CapTable)), r == i.seg.msg.CapTable[i.cap])
 
 //@ func isZeroFilled -> r
 //@   props C17 C18
